@@ -270,6 +270,8 @@ impl<T> Signal<T> {
     unsafe fn wake(this: *const Self, state: u8) {
         match &(*this).waker {
             KanalWaker::Sync(waker) => {
+                #[cfg(kanal_verif)]
+                crate::verif::rt::mem_read(core::ptr::addr_of!((*this).waker) as usize, "wake:read-waker-kind");
                 if (*this)
                     .state
                     .compare_exchange(LOCKED, state, Ordering::Release, Ordering::Acquire)
